@@ -446,6 +446,40 @@ pub fn det_group(rng: &mut Rng, max_objects: usize, group: usize) -> Vec<String>
             Err(e) => fails[i].push(format!("panic while interleaving two gradual calculators: {}", panic_msg(e))),
         }
     }
+    // one Performance builder value serving several requests: generate_state, generate_state again,
+    // then calculate - each equals the request on a fresh builder
+    for (i, j) in jobs.iter().enumerate() {
+        if reference[i].is_none() {
+            continue;
+        }
+        let mode = mode_of(j.target);
+        let d = reused[i].clone();
+        let res = catch_unwind(AssertUnwindSafe(|| {
+            let mk = || j.spec.apply(Performance::new(&j.map).difficulty(d.clone()).mode_or_ignore(mode));
+            let fresh_state = mk().generate_state();
+            let fresh_calc = mk().calculate().json();
+            let mut b = mk();
+            let s1 = b.generate_state();
+            let s2 = b.generate_state();
+            let c = b.calculate().json();
+            let mut bad = Vec::new();
+            if s1 != fresh_state {
+                bad.push("generate_state on a builder differs from the same request on an identical fresh builder");
+            }
+            if s2 != s1 {
+                bad.push("a second generate_state on the same builder returns another state than the first");
+            }
+            if c != fresh_calc {
+                bad.push("calculate() on a builder that already served generate_state differs from calculate() on a fresh builder");
+            }
+            bad
+        }));
+        evals[i] += 1;
+        match res {
+            Ok(bad) => fails[i].extend(bad.into_iter().map(String::from)),
+            Err(e) => fails[i].push(format!("panic while reusing a Performance builder: {}", panic_msg(e))),
+        }
+    }
     // another call history to the same positions: jumps with nth(k) instead of stepping with next()
     for (i, j) in jobs.iter().enumerate() {
         if j.map.hit_objects.len() > 30 || reference[i].is_none() {
